@@ -10,7 +10,7 @@ EXTENDS Store, Json
 B == BlockSize
 PerBlock == {1, 2, 5}
 NumBlocksSet == {1, 2, 5, 6, 7, 8, 9, 16, 63, 64, 65, 72}
-Shapes == {"single", "stack", "recompress_del", "mixed", "del_only"}
+Shapes == {"single", "stack", "recompress_del", "mixed", "del_only", "switch", "switch_del"}   \* switch: merged under another compressor
 Caches == {0, 1, 2, 100}
 
 \* size of a document such that exactly k of them fill a block
@@ -31,8 +31,9 @@ SegRec(sz, blocks) == [sizes |-> sz, blocks |-> Len(blocks), layers |-> NumLayer
 \* s1/b1/r1: sizes, blocks, record of the main segment; s2/b2/r2 of the small one (2 blocks)
 Case(k, nb, tail, big, shape, c, s1, b1, r1, s2, b2, r2) ==
   LET n1 == Len(s1)
-      dels == IF shape \in {"recompress_del", "del_only"} THEN {1, (n1 + 1) \div 2, n1} ELSE {}
-      st1 == Stacks(b1, AllAlive(b1) \ {d - 1 : d \in dels}, TRUE)
+      same == shape \notin {"switch", "switch_del"}
+      dels == IF shape \in {"recompress_del", "del_only", "switch_del"} THEN {1, (n1 + 1) \div 2, n1} ELSE {}
+      st1 == Stacks(b1, AllAlive(b1) \ {d - 1 : d \in dels}, same)
       srcB == IF shape \in {"single", "del_only"} THEN <<b1>> ELSE IF shape = "mixed" THEN <<b1, ShiftIds(b2, n1)>> ELSE <<b1, ShiftIds(b1, n1)>>
       al1 == AllAlive(b1) \ {d - 1 : d \in dels}
       alv == IF Len(srcB) = 1 THEN <<al1>> ELSE <<al1, AllAlive(srcB[2])>>
@@ -40,12 +41,13 @@ Case(k, nb, tail, big, shape, c, s1, b1, r1, s2, b2, r2) ==
       rev(q) == IF Len(q) = 1 THEN q ELSE <<q[2], q[1]>>
   IN [k |-> k, nb |-> nb, tail |-> tail, big |-> big, shape |-> shape, cache |-> c, blocksize |-> B,
       merged_blocks |-> IF shape = "single" THEN <<>>
-                        ELSE <<Len(Merge(srcB, alv, szs, B)), Len(Merge(rev(srcB), rev(alv), szs, B))>>,
+                        ELSE <<Len(MergeC(srcB, alv, szs, B, same)), Len(MergeC(rev(srcB), rev(alv), szs, B, same))>>,
+      switch_codec |-> ~same,
       segs |-> IF shape \in {"single", "del_only"} THEN <<r1>> ELSE IF shape = "mixed" THEN <<r1, r2>> ELSE <<r1, r1>>,
       deletes |-> dels, merge |-> shape # "single",
       expect_stack |-> IF shape \in {"single", "del_only"} THEN <<st1>>
                        ELSE IF shape = "mixed" THEN <<st1, Stacks(b2, AllAlive(b2), TRUE)>>
-                       ELSE <<st1, Stacks(b1, AllAlive(b1), TRUE)>>]
+                       ELSE <<st1, Stacks(b1, AllAlive(b1), same)>>]
 
 VARIABLE done
 GInit ==
